@@ -658,6 +658,11 @@ func enumC17(n int, seed int64, thorough bool) []func() []wcaseT {
 				}
 			}
 			run.Prog = append(run.Prog, "C", "G", "C", "W5", "G")
+			if g%3 == 2 {
+				// a transient sink failure somewhere in the program: the lifecycle rules hold for the attempts that follow
+				run.FailAt = []int{1 + rnd.Intn(4)}
+				run.Prog = append(run.Prog, "C", "G")
+			}
 			run.Size = total + 64
 			return []wcaseT{{run, gen.Make(run.Shape, run.Seed, run.Size)}}
 		})
